@@ -9,7 +9,7 @@ import warnings
 import numpy as np
 import torch
 
-from vlib import cb, cl, cln, cn, co, cp, coq_eval_bools, coq_eval_print, exc_kind, shrink, load_corpus
+from vlib import CoqError, cb, cl, cln, cn, co, cp, coq_eval_bools, coq_eval_print, exc_kind, shrink, load_corpus
 
 IMPORTS = "From PV Require Import C14.Model C14.Spec.\n"
 THEOREMS = ["c14_batches_single_bucket_in_order", "c14_batch_sizes", "c14_every_index_once",
@@ -594,6 +594,40 @@ def bbs_model_term(case, out):
     return _all([t, cb(out.get("again_same", True))])
 
 
+IMPORTS_SRC = "From PV Require Import C14.Model C14.SrcRun.\n"
+
+
+def bbs_src_term(case, out):
+    """bool: the regenerated source term of BucketBatchSampler.__iter__ (PV.Gen.C14Src.bbs_iter), run by
+    PV.MiniPy.Interp inside Coq on {i: i2b[i]} / {b: b2s[b]}, yields what the implementation yielded"""
+    if "err" in out and out["err"] != "RuntimeError":
+        return "false"
+    impl = "None" if "err" in out else co(lln(out["ok"]))
+    return f"src_check_bbs {cln(case['sampler'])} {cln(case['i2b'])} {cln(case['b2s'])} {cb(case['drop'])} {impl}"
+
+
+def source_tie(chk, cases, outs):
+    """run the translated source inside Coq on the direct BucketBatchSampler cases of this run (validates the
+    translator + MiniPy semantics against CPython; independent of whether the tie lemmas still compile)"""
+    idx = [i for i, c in enumerate(cases) if c["kind"] == "bbs" and not c.get("peek") and not c.get("inter")
+           and all(0 <= x < len(c["i2b"]) for x in c["sampler"]) and all(0 <= b < len(c["b2s"]) for b in c["i2b"])]
+    try:
+        res = coq_eval_bools(chk.workdir, IMPORTS_SRC, [bbs_src_term(cases[i], outs[i]) for i in idx], shard=100, tag="src")
+    except CoqError as e:
+        chk.extra["source_tie_run"] = "not evaluated: " + str(e)[-400:]
+        return
+    bad = [idx[j] for j, ok in enumerate(res) if not ok]
+    chk.extra["source_tie_run"] = {"cases": len(idx), "disagreements": len(bad)}
+    chk.count("source_tie_cases", len(idx))
+    if bad:
+        i = bad[0]
+        chk.report({"case": cases[i], "impl": outs[i],
+                    "what": "BucketBatchSampler.__iter__ as translated to MiniPy and interpreted in Coq (PV.C14.SrcRun.src_bbs) does "
+                            "not reproduce the implementation's batches: translator / interpreter no longer describe the code",
+                    "correspondence": "tie:C14:py2coq+MiniPy.Interp:BucketBatchSampler.__iter__",
+                    "theorems_at_stake": ["c14_source_bucket_iter_is_model"]}, no_failing_input=True)
+
+
 def bbs_spec_term(case, out):
     """valid inputs (every bucket of the sampler has a positive size) must not raise and must
     satisfy the sampler clauses"""
@@ -1002,6 +1036,7 @@ def run(chk, cases=None):
         if "lens" in c:
             chk.count("%s.n=%d" % (c["kind"], len(c["lens"])))
     mres = coq_eval_bools(chk.workdir, IMPORTS, mterms, shard=120)
+    source_tie(chk, cases, outs)
     need = [i for i in range(len(cases)) if sterms[i] is not None and needs_spec(cases[i], outs[i], mres[i])]
     sres = dict(zip(need, coq_eval_bools(chk.workdir, IMPORTS, [sterms[i] for i in need], shard=60, tag="spec")))
     chk.extra["model_disagreements"] = sum(1 for r in mres if not r)
